@@ -6,13 +6,25 @@ L3 (concurrency): two small labelled transition systems.
    `Observer::send_msg` in `src/storage/observer.rs`, `ObserverWorker::try_update_active_blob` in
    `src/storage/observer_worker.rs`).
 
-   A client task does one write into a FULL active blob:
+   A client task does one write into a FULL active blob.  Two protocols (`Proto`):
+
+   `sendUnderLock` — /repo up to eb0e048 (the pinned code):
 
        let safe = self.inner.safe.read().await;          -- `cAcquire`: shared lock on `Inner::safe`
        Blob::write(blob, key, record).await?;            -- `cAppend` : atomic (see `Pearl.Append` below)
        self.try_update_active_blob(blob).await?;         -- `cSend`   : `sender.send(msg).await` on the bounded
                                                          --             channel, `safe` STILL HELD
        (guard dropped at the end of the function)        -- `cRelease`
+
+   `sendAfterRelease` — /repo since fe5e781 (the code as it is now):
+
+       let safe = self.inner.safe.read().await;          -- `cAcquire`
+       Blob::write(blob, key, record).await?;            -- `cAppend` : … and `need_update` is decided here,
+       let need_update = self.should_update_active_blob(blob).await?;     under the lock (`relSend` / `release`)
+       drop(safe);                                       -- `cRelease`
+       if need_update { self.observer.try_update_active_blob().await }    -- `cSend` (pc `sendFree`): no lock held
+
+   (`delete_with_optional_meta` follows the same two shapes with `DeferredDumpBlobIndexes` / `TryFsyncData`.)
 
    The worker:
 
@@ -41,8 +53,12 @@ inductive CPc where
   | append
   /-- holds the shared lock, in `sender.send(..)` -/
   | send
-  /-- holds the shared lock, about to drop it -/
+  /-- holds the shared lock, about to drop it; nothing (more) to send -/
   | release
+  /-- `sendAfterRelease`: holds the shared lock, about to drop it, has decided to send afterwards -/
+  | relSend
+  /-- `sendAfterRelease`: holds no lock, in `sender.send(..)` -/
+  | sendFree
   | done
 deriving DecidableEq, Repr, Inhabited
 
@@ -85,9 +101,24 @@ inductive Label where
   | wSwitch
 deriving DecidableEq, Repr, Inhabited
 
-/-- the transition function: `fire cap l s` is the successor of `s` under `l` if `l` is enabled.
-    `cap` is the channel capacity (`OBSERVER_CHANNEL_SIZE_LIMIT`). -/
-def fire (cap : Nat) (l : Label) (s : LState) : Option LState :=
+/-- when the request to the worker is sent -/
+inductive Proto where
+  /-- while the shared storage lock is held (/repo up to eb0e048) -/
+  | sendUnderLock
+  /-- after the shared storage lock is dropped (/repo since fe5e781) -/
+  | sendAfterRelease
+deriving DecidableEq, Repr, Inhabited
+
+/-- where a client goes after its append: `full` is what it saw under the lock (`need_update`) -/
+def appendTarget : Proto → Bool → CPc
+  | _, false => .release
+  | .sendUnderLock, true => .send
+  | .sendAfterRelease, true => .relSend
+
+/-- the transition function: `fire proto cap l s` is the successor of `s` under `l` if `l` is enabled.
+    `cap` is the channel capacity (`OBSERVER_CHANNEL_SIZE_LIMIT`).  The protocol only decides where
+    `cAppend` leads; every other transition is determined by the program counter. -/
+def fire (proto : Proto) (cap : Nat) (l : Label) (s : LState) : Option LState :=
   match l with
   | .cAcquire i =>
     if s.clients[i]? = some .start ∧ s.writer = .idle then
@@ -95,15 +126,19 @@ def fire (cap : Nat) (l : Label) (s : LState) : Option LState :=
     else none
   | .cAppend i =>
     if s.clients[i]? = some .append then
-      some { s with clients := s.clients.set i (if s.full then .send else .release) }
+      some { s with clients := s.clients.set i (appendTarget proto s.full) }
     else none
   | .cSend i =>
     if s.clients[i]? = some .send ∧ s.chan < cap then
       some { s with clients := s.clients.set i .release, chan := s.chan + 1 }
+    else if s.clients[i]? = some .sendFree ∧ s.chan < cap then
+      some { s with clients := s.clients.set i .done, chan := s.chan + 1 }
     else none
   | .cRelease i =>
     if s.clients[i]? = some .release then
       some { s with clients := s.clients.set i .done, readers := s.readers - 1 }
+    else if s.clients[i]? = some .relSend then
+      some { s with clients := s.clients.set i .sendFree, readers := s.readers - 1 }
     else none
   | .wRecv =>
     if s.wpc = .recv ∧ 0 < s.chan then
@@ -117,26 +152,26 @@ def fire (cap : Nat) (l : Label) (s : LState) : Option LState :=
     if s.wpc = .switching then some { s with wpc := .recv, writer := .idle, full := false }
     else none
 
-def Step (cap : Nat) (s s' : LState) : Prop := ∃ l, fire cap l s = some s'
+def Step (proto : Proto) (cap : Nat) (s s' : LState) : Prop := ∃ l, fire proto cap l s = some s'
 
 /-- everybody is done: all clients finished, channel drained, worker back in `recv` -/
 def final (s : LState) : Prop := (∀ c ∈ s.clients, c = .done) ∧ s.chan = 0 ∧ s.wpc = .recv
 
 instance (s : LState) : Decidable (final s) := by unfold final; infer_instance
 
-def Stuck (cap : Nat) (s : LState) : Prop := ¬ final s ∧ ∀ s', ¬ Step cap s s'
+def Stuck (proto : Proto) (cap : Nat) (s : LState) : Prop := ¬ final s ∧ ∀ s', ¬ Step proto cap s s'
 
 /-- run a schedule (`none` if some label is not enabled when its turn comes) -/
-def runSched (cap : Nat) : List Label → LState → Option LState
+def runSched (proto : Proto) (cap : Nat) : List Label → LState → Option LState
   | [], s => some s
   | l :: ls, s =>
-    match fire cap l s with
-    | some s' => runSched cap ls s'
+    match fire proto cap l s with
+    | some s' => runSched proto cap ls s'
     | none => none
 
-inductive Reach (cap : Nat) (s0 : LState) : LState → Prop where
-  | refl : Reach cap s0 s0
-  | step {s s' : LState} : Reach cap s0 s → Step cap s s' → Reach cap s0 s'
+inductive Reach (proto : Proto) (cap : Nat) (s0 : LState) : LState → Prop where
+  | refl : Reach proto cap s0 s0
+  | step {s s' : LState} : Reach proto cap s0 s → Step proto cap s s' → Reach proto cap s0 s'
 
 /-- `n` clients that have not yet asked for the lock -/
 def init (n : Nat) : LState :=
@@ -146,7 +181,7 @@ def init (n : Nat) : LState :=
 def initInside (n : Nat) : LState :=
   { clients := List.replicate n .append, chan := 0, wpc := .recv, readers := n, writer := .idle, full := true }
 
-/-- the schedule that runs `initInside (cap + 2)` into a deadlock:
+/-- `sendUnderLock`: the schedule that runs `initInside (cap + 2)` into a deadlock:
     everybody appends; `cap` clients fill the channel; the worker takes one message and queues for the
     exclusive lock; one more client refills the channel; the `cap + 1` clients that have sent leave;
     the last client sits in `send` on a full channel holding the shared lock the worker waits for. -/
